@@ -57,7 +57,7 @@ def sim_case(
         )
         return case
     case["table"] = draw(tables.table_spec(table_nmax, with_library, families))
-    case["container"] = draw(st.sampled_from(["dict", "dataframe", "dataframe-offset-index"]))
+    case["container"] = draw(st.sampled_from(tables.CONTAINERS))
     # one table in eight is handed over with its rows from high to low pressure (the wrapper's interpolators sort)
     case["rows"] = "descending" if draw(st.integers(0, 7)) == 0 else "ascending"
     case["pair"] = draw(tables.pressure_pair())
